@@ -307,9 +307,27 @@ func (n *NodeGroup) DeleteNodes(nodes ...*v1.Node) error {
 			return fmt.Errorf("failed to terminate instance. err: %v", err)
 		}
 		log.Debug(*result.Activity.Description)
+
+		// keep the cached group in step with the accepted termination, so that size checks and
+		// scale ups later in the same scan do not work from a stale desired capacity
+		n.removeCachedInstance(awsapi.StringValue(instanceID))
 	}
 
 	return nil
+}
+
+// removeCachedInstance removes a terminated instance from the cached ASG and decrements its cached desired capacity
+func (n *NodeGroup) removeCachedInstance(instanceID string) {
+	instances := make([]*autoscaling.Instance, 0, len(n.asg.Instances))
+	for _, instance := range n.asg.Instances {
+		if awsapi.StringValue(instance.InstanceId) != instanceID {
+			instances = append(instances, instance)
+		}
+	}
+	n.asg.Instances = instances
+	if n.asg.DesiredCapacity != nil {
+		n.asg.DesiredCapacity = awsapi.Int64(awsapi.Int64Value(n.asg.DesiredCapacity) - 1)
+	}
 }
 
 // Belongs determines if the node belongs in the current node group
